@@ -122,6 +122,10 @@ func (db *MultiBucketBackend) ListBucket(bucket string, prefix *gofakes3.Prefix,
 	defer db.lock.Unlock()
 
 	path, part, ok := prefix.FilePrefix()
+	if ok && path != "" && !validKey(path) {
+		// no key can live under such a prefix
+		return gofakes3.NewObjectList(), nil
+	}
 	if ok {
 		return db.getBucketWithFilePrefixLocked(bucket, path, part)
 	} else {
@@ -334,6 +338,11 @@ func (db *MultiBucketBackend) BucketExists(name string) (exists bool, err error)
 }
 
 func (db *MultiBucketBackend) HeadObject(bucketName, objectName string) (*gofakes3.Object, error) {
+	if !validKey(objectName) {
+		// such a key can never have been stored
+		return nil, gofakes3.KeyNotFound(objectName)
+	}
+
 	db.lock.Lock()
 	defer db.lock.Unlock()
 
@@ -373,6 +382,11 @@ func (db *MultiBucketBackend) HeadObject(bucketName, objectName string) (*gofake
 }
 
 func (db *MultiBucketBackend) GetObject(bucketName, objectName string, rangeRequest *gofakes3.ObjectRangeRequest) (obj *gofakes3.Object, rerr error) {
+	if !validKey(objectName) {
+		// such a key can never have been stored
+		return nil, gofakes3.KeyNotFound(objectName)
+	}
+
 	db.lock.Lock()
 	defer db.lock.Unlock()
 
@@ -441,6 +455,9 @@ func (db *MultiBucketBackend) PutObject(
 	meta map[string]string,
 	input io.Reader, size int64,
 ) (result gofakes3.PutObjectResult, err error) {
+	if !validKey(objectName) {
+		return result, invalidKeyError(objectName)
+	}
 
 	err = gofakes3.MergeMetadata(db, bucketName, objectName, meta)
 	if err != nil {
@@ -461,6 +478,12 @@ func (db *MultiBucketBackend) PutObject(
 	objectPath := path.Join(bucketName, objectName)
 	objectFilePath := filepath.FromSlash(objectPath)
 	objectDir := filepath.Dir(objectFilePath)
+
+	if conflict, err := keyConflict(db.bucketFs, objectPath); err != nil {
+		return result, err
+	} else if conflict {
+		return result, keyConflictError(objectName)
+	}
 
 	if objectDir != "." {
 		if err := db.bucketFs.MkdirAll(objectDir, db.dirMode); err != nil {
@@ -534,10 +557,22 @@ func (db *MultiBucketBackend) DeleteObject(bucketName, objectName string) (resul
 }
 
 func (db *MultiBucketBackend) deleteObjectLocked(bucketName, objectName string) error {
+	if !validKey(objectName) {
+		// such a key can never have been stored: nothing to delete
+		return nil
+	}
+
 	fullPath := path.Join(bucketName, objectName)
 
 	// S3 does not report an error when attemping to delete a key that does not exist, so
 	// we need to skip IsNotExist errors.
+	if isDir, err := afero.DirExists(db.bucketFs, filepath.FromSlash(fullPath)); err != nil {
+		return err
+	} else if isDir {
+		// a directory is a prefix of other keys, not a key: nothing to delete
+		return nil
+	}
+
 	if err := db.bucketFs.Remove(filepath.FromSlash(fullPath)); err != nil && !os.IsNotExist(err) {
 		return err
 	}
